@@ -107,7 +107,10 @@ def check(case, ctx):
     sel = S.make(cls, direction, n_to_select=case["request"], **case["params"])
     with ctx.lib("fit"):
         sel.fit(X, y)
-    idx = np.asarray(sel.selected_idx_)
+    idx = np.array(sel.selected_idx_, copy=True)
+    with ctx.lib("get_support"):
+        sel.get_support(indices=True)               # the unordered query must not disturb the selection order
+    ctx.equal("order-intact-after-query", np.asarray(sel.selected_idx_), idx, "selected_idx_ after get_support(indices=True)")
     ctx.true("distinct", len(set(idx.tolist())) == len(idx), "repeated index in %s" % idx.tolist())
     if len(set(idx.tolist())) != len(idx) or np.any(idx < 0) or np.any(idx >= N):
         ctx.fail("invalid-indices", str(idx.tolist()))
